@@ -438,7 +438,8 @@ func init() {
 		Assumptions: []string{
 			"the overlay rewrite of `for k, v := range m` into iteration over a snapshot of the entries preserves behaviour (no risor loop deletes not-yet-visited entries of the map it ranges over)",
 			"sites whose key type has no canonical order are left in Go's order and listed as uncontrolled",
-			"rand, time and goroutines are not generated; the printed form of host Go pointers does not occur",
+			"rand and time are not generated; goroutines only as spawn(...).wait(); the printed form of host Go pointers does not occur",
+			"range sites never visited by the workload: vm/run.go (4 sites, unexported helpers used only by risor's own tests), object/object.go Keys and object/set.go Difference (no caller reachable from a script), modules/exec (2, would start real processes), modules/http/response.go (needs a network peer), vm.reloadCode (incremental evaluation: covered through C18, whose equality oracle would see an order dependence)",
 		},
 	})
 }
